@@ -20,10 +20,10 @@ Definition kinds_of (f : wfield) : res kinds :=
 Lemma classify_ok : forall f, wf_ty (resolved_type f) = true -> kinds_of f = Ok (spec_kind (resolved_type f)).
 Proof.
   intros [t d df] H. cbn [resolved_type] in *.
-  destruct t as [b|c|e|a|k a|a|n|a|a|k v|o| |n']; try discriminate H;
+  destruct t as [b|c|e|a|k a|a|n|a|a|k v|o| |n'|pp u1 u2]; try discriminate H;
     try (destruct b; try discriminate H; reflexivity);
     try reflexivity;
-    destruct a as [b|c|e|a|k' a|a|n|a|a|k' v|o| |n']; try discriminate H;
+    destruct a as [b|c|e|a|k' a|a|n|a|a|k' v|o| |n'|pp u1 u2]; try discriminate H;
     try (destruct b; try discriminate H); try (destruct k); reflexivity.
 Qed.
 
@@ -32,10 +32,10 @@ Lemma role_taker_ok : forall f, wf_ty (resolved_type f) = true ->
   is_role_taker f = Ok (match resolved_type f with Cls _ | Enum _ => negb (has_default f) && negb (has_default_factory f) | _ => false end).
 Proof.
   intros [t d df] H. cbn [resolved_type has_default has_default_factory] in *. destruct d, df;
-  destruct t as [b|c|e|a|k a|a|n|a|a|k v|o| |n']; try discriminate H;
+  destruct t as [b|c|e|a|k a|a|n|a|a|k v|o| |n'|pp u1 u2]; try discriminate H;
     try (destruct b; try discriminate H; reflexivity);
     try reflexivity;
-    destruct a as [b|c|e|a|k' a|a|n|a|a|k' v|o| |n']; try discriminate H;
+    destruct a as [b|c|e|a|k' a|a|n|a|a|k' v|o| |n'|pp u1 u2]; try discriminate H;
     try (destruct b; try discriminate H); try (destruct k); reflexivity.
 Qed.
 
@@ -43,7 +43,7 @@ Lemma container_type_ok : forall f, wf_ty (resolved_type f) = true ->
   container_type f = Ok (match resolved_type f with Cont k _ => korigin k | TypeOf _ => OType | _ => ONone end).
 Proof.
   intros [t d df] H. cbn [resolved_type] in *.
-  destruct t as [b|c|e|a|k a|a|n|a|a|k v|o| |n']; try discriminate H; try reflexivity.
+  destruct t as [b|c|e|a|k a|a|n|a|a|k v|o| |n'|pp u1 u2]; try discriminate H; try reflexivity.
   destruct k; reflexivity.
 Qed.
 
